@@ -1617,13 +1617,18 @@ def run(ctx):
         ctx.hist['oracle-failure:' + f['signature']] -= 1
     for k, v in hist.items():
         ctx.count(k, v)
-    results += run_cases(ctx, 'c06', ctx.n(10, 120), ctx.n(8, 12))
+    results += run_cases(ctx, 'c06', ctx.n(10, 400), ctx.n(8, 12))
     for r in results:
         ctx.case(r.canon, nontrivial=nontrivial(r.stats, r.n_wire, r.n_events),
                  sample={'txs': r.txs, 'schedule': r.case['schedule'][:12], 'stats': r.stats})
         for k, v in r.stats.items():
             ctx.count('events:' + k, v)
     ctx.traces = sum(len(r.lines) for r in results)
+    ctx.notes['explanation'] = ('every case: real provider history (all transaction kinds, SequenceId / InstanceId changes) x one '
+                                'delivery schedule (drop / duplicate / reorder / delay / replay, notifications during an in-flight '
+                                'GetMdib answered from an earlier prefix, GetContextStates answered later); after every event the '
+                                'model output == real ConsumerMdib and the oracle is evaluated on the real consumer; the fixed '
+                                'scenarios (schedules on which the pinned tree failed) run first')
     compare_with_model(ctx, results)
 
 
